@@ -322,7 +322,8 @@ func (p c16) Exec(w *e.World, st *e.Step) *e.Violation {
 		var bad []string
 		for _, s := range diffs {
 			for _, c := range c16Stores {
-				if s == c {
+				// (content, not hash: a key rewritten with the same value only changes IAVL node versions)
+				if s == c && len(e.DiffStoreEntries(N.App, P.App, s)) > 0 {
 					bad = append(bad, s)
 				}
 			}
